@@ -16,7 +16,7 @@ from .common import SCtx, sctx, fnctx, is_self_call
 from .toposort_rules import check_toposort
 
 PROP = "C01"
-FLOORS = {"C01.R1": 7, "C01.R2": 5, "C01.R3": 8, "C01.R4": 2, "C01.R5": 7, "C01.R6": 1, "C01.R7": 4, "C01.R8": 14}
+FLOORS = {"C01.R1": 7, "C01.R2": 5, "C01.R3": 8, "C01.R4": 2, "C01.R5": 7, "C01.R6": 1, "C01.R7": 4, "C01.R8": 14, "C01.R9": 30, "C01.R10": 7}
 META = {
     "explanation": "Static discharge of the update protocol behind C01: on the control-flow graph of Manager.set_value "
                    "(after inlining of helpers) every path unregisters an existing definition, registers the new ExprTask, "
@@ -112,6 +112,13 @@ def _set_value_protocol(col: Collector, rule="C01.R1", only=None, order_rule=Non
             okU, facts = False, "a path reaches the write/register with the old definition neither unregistered nor known absent"
     col.add("C03.R2" if only == "C03" else rule, f"{q}#unregister-existing-definition", okU, s.loc(Un[0]) if Un else here,
             "an existing task identified by the assigned ref is unregistered first, exactly when `ref in self.tasks`", facts)
+    # (d') a second registration under the same id is reachable only through an unregister
+    twice = [(a, b) for a in Rn for b in Rn if cfg.path_avoiding(a, b, good_u) and (a != b or cfg.in_loop(a))]
+    col.add("C03.R2" if only == "C03" else rule, f"{q}#no-registration-over-a-live-one", not twice,
+            s.loc(twice[0][1]) if twice else (s.loc(Rn[0]) if Rn else here),
+            "no path (exceptional ones included) registers a task for the assigned ref while an earlier registration of this "
+            "call is still in place (the indices would carry both)",
+            f"register at {s.loc(twice[0][0])} reaches register at {s.loc(twice[0][1])} with no unregister between" if twice else "")
     # (e) graph changes precede the write
     late = [x for x in Un + Rn if any(cfg.path_avoiding(w, x, []) for w in Wn)]
     early = [w for w in Wn if any(cfg.path_avoiding(w, x, []) for x in Un + Rn)]
@@ -424,3 +431,10 @@ def check(col: Collector):
     # in-place updates (`ref += x`) are assignments of (current expression OP x) or (current value OP x)
     from . import c04
     c04.inplace_rules(col, "C01.R8")
+    # a dependant is recomputed only if the location it reads is among its reported dependencies, and it is found only
+    # through indices in which a removed definition left nothing behind
+    from . import c02, c05
+    from .common import shared
+    shared(col, "C01.R9", [c05._readset, c05._accumulator, c05._structure],
+           why="an expression is re-evaluated only when one of its reported dependencies is assigned")
+    c02.inverse_effects(col, "C01.R10")
